@@ -115,6 +115,8 @@ impl RunOpts {
 
 #[derive(Clone, Debug, Default, Serialize, Deserialize)]
 pub struct CaseStats {
+    /// iterators obtained before an operation and consumed after it
+    pub early_iters: u64,
     /// a short-lived reader accompanied every write transaction
     pub reader_dance: bool,
     pub ops: u64,
@@ -1539,6 +1541,75 @@ fn clone_err(e: &Error) -> Error {
     }
 }
 
+/// An iterator obtained BEFORE an operation and consumed after it (C07 / C08): whatever it
+/// yields must lie inside its bounds, ascend strictly, and equal the model's answer either for
+/// the state after the operation (a lazily positioned iterator) or for the state before it.
+struct Early<'b, 'tx> {
+    // dropped first: borrows the boxed handle below
+    iter: Option<Box<dyn Iterator<Item = Data<'b, 'tx>> + 'b>>,
+    _key: Box<[u8]>,
+    _handle: Box<Bucket<'b, 'tx>>,
+    path: Path,
+    lo: Bound<Vec<u8>>,
+    before: MBucket,
+    what: &'static str,
+}
+
+fn make_early<'b, 'tx>(tx: &'b Tx<'tx>, path: &Path, model: &MBucket, kind: u8, pick: usize) -> Option<Early<'b, 'tx>> {
+    let mb = model.bucket(path)?;
+    // a handle of its own, opened by name along the path
+    let mut h: Option<Bucket<'b, 'tx>> = None;
+    for name in path {
+        let nb = match &h {
+            None => tx.get_bucket(name.clone()).ok()?,
+            Some(p) => p.get_bucket(name.clone()).ok()?,
+        };
+        h = Some(nb);
+    }
+    let handle = Box::new(h?);
+    let keys: Vec<&Vec<u8>> = mb.entries.keys().collect();
+    let key: Box<[u8]> = if keys.is_empty() { Box::from(&b"m"[..]) } else { keys[pick % keys.len()].clone().into_boxed_slice() };
+    // the boxed handle and key outlive the iterator (field order of `Early`); the references
+    // handed to jammdb are only used through that iterator
+    let href: &'b Bucket<'b, 'tx> = unsafe { &*(handle.as_ref() as *const Bucket<'b, 'tx>) };
+    let kref: &'b [u8] = unsafe { &*(key.as_ref() as *const [u8]) };
+    let (iter, lo, what): (Box<dyn Iterator<Item = Data<'b, 'tx>> + 'b>, Bound<Vec<u8>>, &'static str) = match kind % 3 {
+        0 => (Box::new(href.range((Bound::Included(kref), Bound::Unbounded))), Bound::Included(key.to_vec()), "range with an included start"),
+        1 => (Box::new(href.range((Bound::Excluded(kref), Bound::Unbounded))), Bound::Excluded(key.to_vec()), "range with an excluded start"),
+        _ => (Box::new(href.cursor()), Bound::Unbounded, "cursor"),
+    };
+    Some(Early { iter: Some(iter), _key: key, _handle: handle, path: path.clone(), lo, before: mb.clone(), what })
+}
+
+fn check_early(mut e: Early, model_after: &MBucket) -> Result<(), Failure> {
+    let after = match model_after.bucket(&e.path) {
+        Some(b) => b,
+        None => return Ok(()),
+    };
+    let mut got: Vec<Ent> = Vec::new();
+    let limit = e.before.entries.len() + after.entries.len() + 8;
+    if let Some(it) = e.iter.take() {
+        for d in it {
+            got.push(Ent::of(&d));
+            if got.len() > limit {
+                break;
+            }
+        }
+    }
+    let expect = |m: &MBucket| -> Vec<Ent> { model_entries(m).into_iter().filter(|x| in_bounds(x.key(), &e.lo, &Bound::Unbounded)).collect() };
+    if got == expect(after) || got == expect(&e.before) {
+        return Ok(());
+    }
+    let d = seq_diff(&expect(after), &got).unwrap_or_default();
+    Err(Failure::new(
+        "scan",
+        format!(
+            "{} {} obtained before the operation and consumed after it (start {}): yields neither the entries of the state after the operation nor of the state before it: {}",
+            path_str(&e.path), e.what, match &e.lo { Bound::Included(k) => format!("incl {}", hex(k)), Bound::Excluded(k) => format!("excl {}", hex(k)), Bound::Unbounded => "unbounded".into() }, d
+        ),
+    ))
+}
+
 /// Runs the ops of one transaction. Returns Ok(true) if it committed.
 pub fn run_tx(
     db: &DB,
@@ -1582,7 +1653,28 @@ pub fn run_tx(
             *op_at = Some(oi);
             ctx.touched.clear();
             let errs_before = ctx.stats.err_returns;
+            // iterators obtained now, consumed after the operation (key-level operations only:
+            // they never delete the bucket an iterator stands on)
+            let mut early: Vec<Early> = Vec::new();
+            if opts.full_check_every_op && writable && matches!(op, Op::Put { .. } | Op::Delete { .. } | Op::PutRun { .. } | Op::DeleteRun { .. }) {
+                let target = match op {
+                    Op::Put { b, .. } | Op::Delete { b, .. } | Op::PutRun { b, .. } | Op::DeleteRun { b, .. } => select_path(work, *b, false),
+                    _ => None,
+                };
+                if let Some(p) = target {
+                    let n = work.bucket(&p).map(|b| b.entries.len()).unwrap_or(0);
+                    for (kind, pick) in [(0u8, oi * 7 + 1), (1, oi * 5 + 2), (0, n / 2), (1, n.saturating_sub(2)), (2, 0)] {
+                        if let Some(e) = make_early(ctx.tx, &p, work, kind, pick) {
+                            early.push(e);
+                        }
+                    }
+                }
+            }
             exec_op(&mut ctx, op, work)?;
+            for e in early.drain(..) {
+                check_early(e, work)?;
+                ctx.stats.early_iters += 1;
+            }
             if opts.dump_after_error && ctx.stats.err_returns > errs_before {
                 // a call that returned an error must have changed nothing
                 let d = dump_tx(ctx.tx).map_err(|s| Failure::new("scan", format!("in-tx dump after an erroring call: {}", s)))?;
